@@ -71,11 +71,12 @@ CHECKS += [
            "2x2 frames and random stacks vs a 3-D component oracle",
       note=PROOF_NOTE + "; python glue (mergelast / outputpeaks) and bloboverlaps only through the bounded stand-in; " + BOUNDED_NOTE,
       technique="function contracts on the real C (z3) + exhaustive small-stack comparison with an independent oracle"),
- dict(id="C13", engine="clib run-time contracts", category="other", design_ref="DESIGN.md section 5 C13",
-      text="bounded only: the freshly compiled localmaxlabel kernels against the steepest-ascent specification on tie-free images, buffer-content and thread-count "
-           "independence, sparse == dense partition; the thread dependence on long ascent paths is a recorded known finding",
-      note="no obligation is proved for C13 (SIMD intrinsics and the three-stage omp structure are outside engine A); " + BOUNDED_NOTE,
-      technique="run-time evaluation of the steepest-ascent contract on the real kernels over a stated image family"),
+ dict(id="C13", engine="cfront+csym, clib run-time contracts", category="other", design_ref="DESIGN.md section 5 C13",
+      text="proved (neighbormax, first stage): memory safety, race freedom, every interior pixel gets a direction code pointing at a largest of its nine "
+           "neighbours. Bounded: the freshly compiled localmaxlabel kernels against the steepest-ascent specification on tie-free images, buffer-content "
+           "and thread-count independence, sparse == dense partition; the thread dependence on long ascent paths is a recorded known finding",
+      note=PROOF_NOTE + "; the label counting and walk-to-maximum stages (hand-made thread split) are only covered by the bounded stand-in; " + BOUNDED_NOTE,
+      technique="function contract + proof-step assertion on the real C (z3); run-time evaluation of the steepest-ascent contract on the real kernels"),
  dict(id="C14", engine="cfront+csym", category="other", design_ref="DESIGN.md section 5 C14",
       text="proved for all images: tosparse_f32/u16/u32 return the count of selected pixels, every entry is a selected pixel with its value, positions strictly "
            "increase row-major; sparse_is_sorted characterised; sparse_overlaps soundness, ordering and tail zeroing; coverlaps safety and key faithfulness. "
@@ -104,7 +105,18 @@ CHECKS += [
       note="no obligation is proved for C18 (printf/strtod/h5py are external); " + BOUNDED_NOTE,
       technique="round-trip postconditions evaluated on the real writers and readers over a stated grid"),
 ]
-NOT_APPLICABLE = [
- dict(property_id="C08", reason="soundness+completeness of a heuristic search over a whole peak set and mutable indexer state: no per-function contract expresses 'finds every grain'; kernels covered by C05/C06/C07"),
- dict(property_id="C09", reason="convergence of a Nelder-Mead optimiser to a tolerance is not a partial-correctness property of any function; pieces covered by C01/C06/C07"),
+CHECKS += [
+ dict(id="C08", engine="run-time postcondition on simulated data", category="other", design_ref="DESIGN.md section 0.2 / 7",
+      text="bounded only: the real indexer (assigntorings / find / scorethem via score_all_pairs) on g-vectors simulated from 1-4 (thorough 8) random grains "
+           "of 8 cells, ideal and noisy with 30% spurious peaks: every reported orientation indexes more than minpks peaks, is right handed, has the cell's "
+           "parameters, no two describe one lattice; on ideal data every grain is reported exactly once up to lattice symmetry",
+      note="no obligation is proved for C08: 'finds every grain' is not a per-function contract (its kernels are proved under C05/C06/C07); " + BOUNDED_NOTE,
+      technique="run-time evaluation of the property's postcondition on the real indexer over a stated simulation grid"),
+ dict(id="C09", engine="run-time postcondition on simulated data", category="other", design_ref="DESIGN.md section 0.2 / 7",
+      text="bounded only: the real refinegrains work flow of makemap on peaks forward-simulated from strained, translated grains for 13 (thorough 26) "
+           "geometry settings (wedge, chi, omega sign, flips, tilts, omega floated, 1-5 grains): UBI recovered to 1e-5, translation to 1 um, every peak "
+           "assigned to its grain, written files carry the simulated hkl",
+      note="no obligation is proved for C09: convergence of a simplex optimiser is not a partial-correctness property (kernels proved under C01/C06/C07); " + BOUNDED_NOTE,
+      technique="run-time evaluation of the property's postcondition on the real refinement work flow over a stated simulation grid"),
 ]
+NOT_APPLICABLE = []
